@@ -152,6 +152,8 @@ inductive BErr
   | arity (f : String)
   | indexPanic (f : String)       -- `root.Args[i]` out of range, recovered by `build`
   | nilDeref                      -- method call on a nil query during build, recovered by `build`
+  | undeclaredVariable
+  | namespaceAxis
   | badRegexp
   deriving DecidableEq, Repr, Inhabited
 
@@ -184,7 +186,8 @@ def fnArity : String → Option (Nat × Option Nat × Bool)   -- (min, explicit 
   | "not" => some (1, none, false)
   | "name" | "local-name" | "namespace-uri" => some (0, some 1, false)
   | "true" | "false" | "last" | "position" => some (0, none, false)
-  | "boolean" | "number" | "string" => some (0, some 1, false)
+  | "boolean" => some (1, some 1, false)
+  | "number" | "string" => some (0, some 1, false)
   | "count" | "sum" | "ceiling" | "floor" | "round" | "reverse" => some (1, none, false)
   | "concat" => some (2, none, false)
   | "string-join" => some (2, some 2, false)
@@ -226,7 +229,7 @@ def axisPlan (a : AxisInfo) (flags : Flags) (props : Props) (inp : Plan) : Excep
   | "preceding" => .ok (.preceding a false inp, nf)
   | "preceding-sibling" => .ok (.preceding a true inp, props)
   | "self" => .ok (.self a inp, props)
-  | "namespace" => .ok (.nil, props)
+  | "namespace" => .error .namespaceAxis
   | other => .error (.unknownAxis other)
 
 def isConstStr : Plan → Option String
@@ -238,7 +241,7 @@ def build : Ast → Flags → BState → Except BErr BOut
   | .str s, _, st => enter st fun st => .ok ⟨.constStr s, {}, leave st⟩
   | .num l, _, st => enter st fun st => .ok ⟨.constNum l, {}, leave st⟩
   | .root _, _, st => enter st fun st => .ok ⟨.absolute, {}, leave st⟩
-  | .var _ _, _, st => enter st fun st => .ok ⟨.nil, {}, leave st⟩
+  | .var _ _, _, st => enter st fun _ => .error .undeclaredVariable
   | .none, _, _ => .error .nilDeref
   | .anil, _, st => .ok ⟨.pnil, {}, st⟩
   | .acons h t, fl, st =>
@@ -275,7 +278,8 @@ def build : Ast → Flags → BState → Except BErr BOut
       else do
         -- only the arguments the case reads are built
         let ao ← build args { take := fnUsed name n } st
-        let argsQ := if name == "normalize-space" && n == 0 then Plan.pcons (.self selfNodeAxis .context) .pnil else ao.q
+        let argsQ := if (name == "normalize-space" || name == "string" || name == "number") && n == 0
+          then Plan.pcons (.self selfNodeAxis .context) .pnil else ao.q
         let props0 : Props := if fnUsed name n == 0 then {} else ao.props
         if name == "matches" then
           match (ao.q.argList.getD 1 .nil) with
